@@ -243,6 +243,17 @@ def handle : List String → String
         let head := xs m ++ "|" ++ (match nm with | some x => xs x | none => "err")
         " ".intercalate (head :: drvWalk path m nm [])
     | _, _, _ => "bad-op"
+  | ["pks", net, sc] => match netOf? net, hexToList? sc with
+    | some net, some sc =>
+      -- ParsePkScript classifies with the main-network parameters, PkScript.Address re-extracts with `net`
+      let c := (extractPkScriptAddrs validPK sc Spec.mainNet).1
+      if c ∈ [ScriptClass.pubKeyHash, .witnessV0PubKeyHash, .scriptHash, .witnessV0ScriptHash, .witnessV1Taproot,
+              .payToAnchor] then
+        match (extractPkScriptAddrs validPK sc net).2.1 with
+        | a :: _ => "ok " ++ c.name ++ " " ++ tok sc ++ " " ++ ascii (a.string cksum4)
+        | [] => "ok " ++ c.name ++ " " ++ tok sc ++ " noaddr"
+      else "err:unsupported"
+    | _, _ => "bad-op"
   | ["tap", internal, leaves] => match hexToList? internal, parseLeaves? leaves with
     | some k, some ls => showTap k ls
     | _, _ => "bad-op"
